@@ -264,6 +264,18 @@ class FpcGen:
             if not vs_r:
                 return f'({self.atom(fn)} < {self.atom(fn)})'
             self.features.add('chained-compare')
+            if ch.bool(0.5):
+                # four or five operands whose operator sequence leaves an operator and returns to it; operands repeat
+                # so that the equal-operand cases (where <, <= differ) occur
+                ops4 = ['<', '<=', '>', '>=', '==']
+                o1 = ch.choice(ops4)
+                o2 = ch.choice([o for o in ops4 if o != o1])
+                seq = ch.choice([[o1, o2, o1], [o1, o2, o1, o2], [o1, o1, o2, o1], [o1, o2, o2, o1]])
+                pool = [ch.choice(vs_r) for _ in range(2)]        # middle operands are variables (structural oracle)
+                xs = [ch.choice(pool + [self.atom(fn)])] + [ch.choice(pool) for _ in range(len(seq) - 1)] + \
+                     [ch.choice(pool + [self.atom(fn)])]
+                self.features.add('chained-compare-4+')
+                return '(' + xs[0] + ''.join(f' {o} {x}' for o, x in zip(seq, xs[1:])) + ')'
             return f'({self.atom(fn)} {ch.choice(["<", "<="])} {ch.choice(vs_r)} {ch.choice(["<", "<="])} {self.atom(fn)})'
         if k == 'and':
             return f'({self.expr_B(fn, d - 1)} and {self.expr_B(fn, d - 1)})'
